@@ -41,12 +41,16 @@ class History:
         self.last_ok = {}        # statement -> tick of its last successful run
         self.ok_cmdline = {}
         self.ok_reads = {}
+        self.ok_deps = {}
+        self.force_edit = []     # files whose declaration as an implicit input should be followed by an edit
         self.failed_last = set()
+        self.maybe_skipped = set()   # statements a failed / cancelled build may have marked 'skipped' (they lose their prior result and re-run later)
+        self.oo_seen = set()
         self.gen_stale = set()   # generator statements whose command line changed since their last run (documented: not re-run)
         self.counter = 0
         self.res = dict(viol=[], inconclusive=[], builds=0, ok_builds=0, null_builds=0, null_not_judged_nodb=0, failing_builds=0, retry_builds=0,
                         repair_builds=0, commands_run=0, files_checked=0, ninja_oracle_runs=0, order_pairs_checked=0, order_only_pairs_checked=0,
-                        order_only_change_kept=0, unexplained_runs=0, cmdline_reruns_seen=0, implicit_reruns_seen=0, discovered_reruns_seen=0,
+                        order_only_change_kept=0, unexplained_runs=0, indirectly_triggered_runs=0, cmdline_reruns_seen=0, implicit_reruns_seen=0, discovered_reruns_seen=0,
                         generator_cmdline_dontcare=0, restat_pruned_seen=0, failures_injected=0, failures_reached=0, touch_rerun=0, touch_kept=0,
                         steps=0, step_kinds={}, fail_modes={}, nontrivial=False, shape="", sample=None, edits_not_observable=0, double_runs=0)
 
@@ -78,6 +82,9 @@ class History:
 
     def cmdline(self, st):
         return nm.command_line(self.man, st, self.sb.path)
+
+    def deps_of(self, st):
+        return (tuple(st.ins), tuple(st.imps), tuple(st.oos))
 
     def reads_of(self, st):
         return nm.parse_reads(self.sb.read(st.reads_file)) if st.reads_file else []
@@ -124,6 +131,8 @@ class History:
             r.append("retry")
         if self.ok_cmdline.get(st.name) != self.cmdline(st):
             r.append("cmdline")
+        if self.ok_deps.get(st.name) != self.deps_of(st):
+            r.append("dependency-list")
         for o in st.outs:
             if self.changed_at.get(o, 0) > t:
                 r.append("output")
@@ -132,8 +141,25 @@ class History:
                 r.append(cls)
         return r
 
+    def pre_triggers(self):
+        """Statements that have a reason to be looked at by the next build: a direct trigger, or (transitively) a producer of one of their
+        data inputs has one (its task runs and may publish a new value even when its command is only 'updated', not run)."""
+        pre = set()
+        outs = set()
+        for st in self.man.sts.values():     # manifest order is topological
+            if st.kind == PHONY:
+                if any(f in outs for f in st.ins + st.imps):
+                    outs.update(st.outs)
+                continue
+            if self.triggers(st) or st.name in self.maybe_skipped or any(f in outs for f, _ in self.data_inputs(st)) \
+                    or any(f in outs for f in st.ins + st.imps):
+                pre.add(st.name)
+                outs.update(st.outs)
+        return pre
+
     # ------------------------------------------------------------ running
     def run_build(self, target=None, jobs=1, keep_going=False, chdir=False):
+        pre = self.pre_triggers()
         self.sb.settle()
         cmd = [vlib.llbuild_bin(self.flavor), "ninja", "build"]
         cwd = self.sb.path
@@ -145,12 +171,13 @@ class History:
         if keep_going:
             cmd += ["-k", "0"]
         if target:
-            cmd.append(target)
+            cmd += list(target)
         env = {}
         if self.flavor == "tsan":
             env["TSAN_OPTIONS"] = "halt_on_error=1:exitcode=66"
         rc, out, err, to = vlib.run_child(cmd, 180, env=env, cwd=cwd)
         b = Build(rc, out, err, to, self.sb.log_since(), " ".join(cmd))
+        b.pre = pre
         self.res["builds"] += 1
         self.res["commands_run"] += len(b.recs)
         return b
@@ -170,14 +197,14 @@ class History:
         self.res["ninja_oracle_runs"] += 1
         pr = nm.NSandbox(self.sb.path + ".clean")
         try:
-            for f in self.man.sources + self.man.headers + [s.reads_file for s in self.man.sts.values() if s.reads_file]:
+            for f in self.man.sources + self.man.headers + self.man.late + [s.reads_file for s in self.man.sts.values() if s.reads_file]:
                 c = self.sb.read(f)
                 if c is not None:
                     with open(pr.p(f), "wb") as fh:
                         fh.write(c)
             with open(pr.p("build.ninja"), "w") as fh:
                 fh.write(nm.manifest_text(self.man, pr.path))
-            cmd = [NINJA, "-j", "4"] + ([target] if target else [])
+            cmd = [NINJA, "-j", "4"] + (list(target) if target else [])
             rc, out, err, to = vlib.run_child(cmd, 180, cwd=pr.path)
             if rc != 0 or to:
                 return None
@@ -237,13 +264,15 @@ class History:
                 self.res["implicit_reruns_seen"] += 1
             if "depfile-discovered" in trig:
                 self.res["discovered_reruns_seen"] += 1
-            if not trig and self.db and judge_unnecessary:
+            if not trig and self.db and judge_unnecessary and st.name not in b.pre:
                 oo = [f for f in self.order_inputs(st) if self.changed_at.get(f, 0) > self.last_ok[st.name]]
                 if oo:
                     self.viol("a change of only an order-only input re-ran the consumer", b, dict(consumer=st.name, order_only_changed=oo))
                     ok = False
                 else:
                     self.res["unexplained_runs"] += 1
+            elif not trig and self.db and judge_unnecessary:
+                self.res["indirectly_triggered_runs"] += 1
             # --- bookkeeping
             self.tick += 1
             for o in st.outs + ([st.depfile] if st.depfile else []):
@@ -253,6 +282,7 @@ class History:
                 self.last_ok[st.name] = self.tick
                 self.ok_cmdline[st.name] = self.cmdline(st)
                 self.ok_reads[st.name] = self.reads_of(st)
+                self.ok_deps[st.name] = self.deps_of(st)
                 self.failed_last.discard(st.name)
                 self.gen_stale.discard(st.name)
             else:
@@ -269,6 +299,8 @@ class History:
         cls = set()
         if self.ok_cmdline.get(st.name) != self.cmdline(st):
             cls.add("command line")
+        if self.ok_deps.get(st.name) != self.deps_of(st):
+            cls.add("declared inputs in the manifest")
         for o in st.outs:
             if self.changed_at.get(o, 0) > t:
                 cls.add("deleted output")
@@ -285,11 +317,15 @@ class History:
         nodes = man.target_nodes(target)
         pred = nm.predict(man, nodes, sb.read)
         reach = man.reachable(nodes)
-        excluded = set()
-        for g in self.gen_stale:
-            if g in man.sts:
-                excluded.add(g)
-                excluded |= man.downstream(g)
+        excluded = set(g for g in self.gen_stale if g in man.sts)
+        if excluded:
+            tainted = set(o for g in excluded for o in man.sts[g].outs)
+            for st in man.sts.values():     # manifest order is topological
+                reads = [f for f, _ in self.data_inputs(st)] + self.reads_of(st)
+                if st.name not in excluded and any(f in tainted for f in reads):
+                    excluded.add(st.name)
+                if st.name in excluded:
+                    tainted.update(st.outs)
         bad = []
         for st in reach:
             if st.kind != CMD or st.name in excluded:
@@ -402,18 +438,27 @@ class History:
                 else:
                     self.res["touch_kept"] += 1
         self.touched = {}
+        for st in self.man.reachable(self.man.target_nodes(target)):
+            if st.kind == CMD and st.name in self.last_ok and st.name not in b.ran:
+                for f in self.order_inputs(st):
+                    t = self.changed_at.get(f, 0)
+                    if t > self.last_ok[st.name] and (st.name, f, t) not in self.oo_seen:
+                        self.oo_seen.add((st.name, f, t))
+                        self.res["order_only_change_kept"] += 1
         if not self.check_converged(b, target):
             return False
         reach = [s for s in self.man.reachable(self.man.target_nodes(target)) if s.kind == CMD]
         if b.recs and len(b.recs) < len(reach) and self.edits_since_build:
             self.res["nontrivial"] = True
         self.edits_since_build = 0
+        self.builds_since_edit = 1
+        self.maybe_skipped -= set(st.name for st in self.man.reachable(self.man.target_nodes(target)))
         return self.null_build(target, jobs)
 
     # ------------------------------------------------------------ steps
     def populate(self):
         man, rnd = self.man, self.rnd
-        for s in man.sources + man.headers:
+        for s in man.sources + man.headers + man.late:
             self.edit(s, "%s v%d\n" % (s, rnd.randint(0, 9)), gap_ns=1000)
         for st in man.sts.values():
             if st.reads_file:
@@ -443,6 +488,23 @@ class History:
         c = self.counter
         x = rnd.random()
         cmds = self.cmds()
+        und = [st for st in cmds if st.undecl]
+        if und and x < 0.25:
+            st = rnd.choice(und)
+            f = st.undecl.pop(0)
+            st.imps.append(f)
+            if not any(f in q.undecl for q in cmds) and f not in man.sources:
+                man.sources.append(f)
+                self.force_edit.append(f)
+            self.kind("declare_implicit_input_cmdline_unchanged")
+            self.note("declare_implicit(%s, %s)" % (st.name, f))
+            self.write_manifest()
+            return True
+        if self.force_edit and self.builds_since_edit and x < 0.7:
+            s = self.force_edit.pop(0)
+            self.kind("edit_source")
+            self.note("edit_source(%s)  # declared late" % s)
+            return self.edit(s, "%s edited %d\n" % (s, c))
         if x < 0.26:
             s = rnd.choice(man.sources)
             self.kind("edit_source")
@@ -649,7 +711,12 @@ class History:
             attempted_total |= attempted
             for f in attempted_total:
                 blocked_data |= man.downstream(f, data_only=True)
-                blocked_oo |= man.downstream(f, data_only=False)
+            # order-only: only DIRECT order-only consumers (through aliases) of something that failed or is blocked; a clean statement in
+            # between is not blocked, so nothing is concluded about what lies behind it
+            failed_outs = set(o for n in attempted_total | blocked_data if n in man.sts for o in man.sts[n].outs)
+            blocked_oo = set(st.name for st in self.cmds() if st.name not in blocked_data and st.name not in attempted_total
+                             and any(f in failed_outs for f in self.order_inputs(st)))
+            self.maybe_skipped |= b.pre | blocked_data | blocked_oo
             wrongly = sorted(n for n in started if n in plan and plan[n] == "missing-input")
             if wrongly:
                 self.viol("a command ran although a declared input is missing and nothing produces it", b, dict(ran=wrongly, failing=plan))
@@ -657,12 +724,19 @@ class History:
             bad = sorted((started - set(plan)) & blocked_data)
             if bad:
                 up = [f for f in attempted_total if bad[0] in man.downstream(f)]
-                self.viol("a dependent of a failed command ran (%s)" % plan[up[0]].split()[0], b, dict(ran=bad, failing=plan, attempted=sorted(attempted_total)))
+                d = man.sts[bad[0]]
+                fouts = set(o for f in up for o in man.sts[f].outs)
+                if any(f in fouts for f in d.ins + d.imps):
+                    how = "it consumes the failed command's output directly"
+                elif any(g in fouts for f in d.ins + d.imps for g in man.alias_files(f)):
+                    how = "it consumes the failed command's output through a phony alias"
+                else:
+                    how = "behind an intermediate statement"
+                self.viol("a dependent of a failed command ran (%s; %s)" % (plan[up[0]].split()[0], how), b, dict(ran=bad, failing=plan, attempted=sorted(attempted_total)))
                 return False
             bad = sorted((started - set(plan)) & (blocked_oo - blocked_data))
             if bad:
-                up = [f for f in attempted_total if bad[0] in man.downstream(f, data_only=False)]
-                self.viol("a command ran although the producer of its order-only input failed (%s%s)" % (plan[up[0]].split()[0], ", -k 0" if keep_going else ""), b,
+                self.viol("a command ran although the producer of its order-only input failed%s" % (" (-k 0)" if keep_going else ""), b,
                           dict(ran=bad, failing=plan, attempted=sorted(attempted_total)))
                 return False
             if attempted and b.rc == 0:
@@ -692,6 +766,7 @@ class History:
         rnd = self.rnd
         self.touched = {}
         self.edits_since_build = 0
+        self.builds_since_edit = 0
         try:
             self.man = nm.gen_manifest(rnd)
             self.db = self.a.get("db", rnd.random() < 0.8)
@@ -718,6 +793,7 @@ class History:
                     if self.step_edit():
                         steps += 1
                         self.edits_since_build += 1
+                        self.builds_since_edit = 0
                     continue
                 if do == "fail":
                     steps += 3
@@ -727,7 +803,8 @@ class History:
                 steps += 1
                 target = None
                 if rnd.random() < 0.35:
-                    target = rnd.choice(self.all_targets())
+                    at = self.all_targets()
+                    target = rnd.sample(at, 1 if rnd.random() < 0.75 else min(len(at), rnd.randint(2, 3)))
                 self.kind("build_default" if target is None else "build_named_target")
                 if not self.judged_build(target, jobs):
                     break
@@ -749,7 +826,7 @@ def run_history(args):
 
 
 SUMS = ["builds", "ok_builds", "null_builds", "null_not_judged_nodb", "failing_builds", "retry_builds", "repair_builds", "commands_run", "files_checked",
-        "ninja_oracle_runs", "order_pairs_checked", "order_only_pairs_checked", "unexplained_runs", "cmdline_reruns_seen", "implicit_reruns_seen",
+        "ninja_oracle_runs", "order_pairs_checked", "order_only_pairs_checked", "order_only_change_kept", "unexplained_runs", "indirectly_triggered_runs", "cmdline_reruns_seen", "implicit_reruns_seen",
         "discovered_reruns_seen", "generator_cmdline_dontcare", "restat_pruned_seen", "failures_injected", "failures_reached", "touch_rerun", "touch_kept",
         "steps", "edits_not_observable", "double_runs"]
 
